@@ -28,12 +28,12 @@ pub fn corr(args: &[&str]) -> String {
                     }
                     re.push(0xff);
                     let same = re == input;
-                    let valid = bndl.crc_valid();
+                    let valid = crate::bio::crc_valid_stable(&mut bndl);
                     let lens: Vec<String> = blocks.iter().map(|b| show_n(b.len() as u128)).collect();
                     let crcs: Vec<String> = codes.iter().map(|c| show_n(*c as u128)).collect();
                     format!(
                         "OK V {} SAME {} LENS {} CRCS {}",
-                        show_bool(valid),
+                        valid,
                         show_bool(same),
                         lens.join(" "),
                         crcs.join(" ")
